@@ -89,7 +89,7 @@ def gen_loop_cases(ctx, n):
         if r.random() < 0.4:
             # a posterior far from the origin relative to its width (variance estimates must not be
             # computed as E[x^2] - E[x]^2)
-            off = r.choice([1e3, 1e4])
+            off = 1e3
             c["mu"] = [r.choice([-1, 1]) * off / math.sqrt(p) * (1 + r.random()) for p in c["prec"]]
             c["init"] = [m + 0.3 / math.sqrt(p) for m, p in zip(c["mu"], c["prec"])]
             c["far_mean"] = off
@@ -139,8 +139,9 @@ def loop_audit(c, o):
     tail = [d for d in o["draws"] if "draw" in d][-3:]
     for d in tail:
         fd = b2f(d["fisher_distance"])
-        # (a squared distance: rounding leaves it below 1e-22 even for means 1e4 widths away)
-        if not (fd <= 1e-19 * max(1.0, dim)):
+        # (a squared distance: rounding leaves it below 3e-23 for means up to 1e3 widths away; an
+        # estimate that loses half of its digits to cancellation gives 1e-19 and more)
+        if not (fd <= 1e-21):
             bad.append("after warmup the whitened gradient is not minus the whitened position (fisher_distance %r) for a Gaussian target" % fd)
             break
     return bad
